@@ -218,7 +218,8 @@ def replay(v):
         patches.append(mock.patch.object(target, meth, failing))
     with tempfile.TemporaryDirectory() as d, warnings.catch_warnings():
         warnings.simplefilter("ignore")
-        p_ = os.path.join(d, "o.fits")
+        # (a name from which astropy cannot infer the format when the claim is about the format that is written)
+        p_ = os.path.join(d, "o.out" if "as FITS" in ob else "o.fits")
         raised = None
         for pt in patches:
             pt.start()
@@ -228,6 +229,9 @@ def replay(v):
             except Boom as e:
                 raised = e
             except Exception as ex:
+                if "as FITS" in ob:
+                    return {"reproduced": True, "key": "staged output is not written as FITS to the configured path",
+                            "detail": f"output file name 'o.out', write_stages={write_stages}: compute() raised {type(ex).__name__}: {ex}"}
                 return {"reproduced": False, "key": None, "detail": f"real run raised {type(ex).__name__}: {ex}"}
         finally:
             for pt in patches:
@@ -259,7 +263,11 @@ def replay(v):
             if stage and raised is None:
                 bad = "the injected stage failure did not propagate out of compute()"
             if os.path.exists(p_):
-                t = Table.read(p_)
+                try:
+                    t = Table.read(p_, format="fits")
+                except Exception as ex:  # noqa
+                    return {"reproduced": True, "key": "staged output is not written as FITS to the configured path",
+                            "detail": f"the file left at {os.path.basename(p_)!r} is not a readable FITS table: {type(ex).__name__}: {ex}"}
                 if list(t.colnames) != final_cols:
                     bad = f"file on disk has columns {t.colnames}, last completed prefix is {final_cols}"
                 if raised is None and [m for m in t.meta if m.isupper() and len(m) <= 8 and m in table_meta] != table_meta:
